@@ -168,7 +168,7 @@ Proof.
   set (s0 := {| cbuf := cbuf s ++ d; hdr := hdr s; status := status s; meta := meta s; cfut := cfut s; connected := connected s |}).
   assert (Hp : cfut (parse_header s0 line) = Done r) by (apply ph_done; exact H).
   destruct (status (parse_header s0 line)) as [v|]; proj; auto.
-  destruct (is_2x v); proj; auto.
+  destruct (is_2x v) eqn:E2; proj; rewrite ?E2; proj; auto.
   destruct (cap <? _); proj; [rewrite cfut_set_err; proj; rewrite Hp|]; auto.
 Qed.
 
@@ -231,7 +231,7 @@ Proof.
     replace (cap <? N.of_nat (length (cbuf s ++ d ++ rest))) with true; [reflexivity|].
     rewrite !app_length in *. lia.
   - cbn [Spec.C13.has_escape Spec.C13.has_close existsb].
-    right; left. proj. split; [assumption|]. split; [assumption|].
+    right; left. proj. split; [reflexivity|]. split; [assumption|].
     exists v. repeat split; try assumption.
     intros rest exc. rewrite <- !app_assoc. apply Hs.
 Qed.
